@@ -132,6 +132,10 @@ class HoppingParams:
 		if ma_len == 0: # TODO: or rather > 1?
 			raise ValueError("Mobile Allocation is empty")
 
+		# HSN is a 6 bit value, RNTABLE is indexed by (HSN xor T1R) + T3
+		if hsn < 0 or hsn > 63:
+			raise ValueError("HSN %d is out of range" % hsn)
+
 		self.hsn = hsn
 		self.maio = maio
 		self.ma = ma
